@@ -341,6 +341,17 @@ def random_plan(rng, money=False, max_base=4, max_derived=4, max_units=4,
             sym = "µ" + sym
         elif r < 0.08:
             sym = sym + "²"
+        elif r < 0.11:
+            # a symbol with a blank inside ("fl oz"); sometimes its first
+            # word is the symbol of a unit of another type
+            others = [s_ for s_ in w.units if " " not in s_ and
+                      w.units[s_].tname != tname]
+            if others and r < 0.095:
+                sym = rng.choice(others) + " " + sym
+            else:
+                sym = sym[0] + " " + sym[1:]
+            if sym in w.units:
+                sym = sym + "x"
         return sym
 
     def rand_factor():
